@@ -32,9 +32,11 @@ structure Flags where
   /-- transaction.rs:976-986 — a transaction listing one value input twice is invalid (pinned: the check compares a
       `Vec` with itself) -/
   dupInputsRejected : Bool := false
+  /-- mempool.rs:202 — `bundle_block` declines while the clock is not past the tip's timestamp (pinned: `assert!`) -/
+  clockChecked : Bool := false
   deriving Repr, DecidableEq
 
-def Flags.fixed : Flags := ⟨true, true, true, true, true⟩
+def Flags.fixed : Flags := ⟨true, true, true, true, true, true⟩
 
 inductive Typ where
   | normal | issuance | gt
@@ -111,7 +113,7 @@ def removeKeys (r ks : List Nat) : List Nat := ks.foldl uRemove r
 
 /-- `Mempool::bundle_block` (mempool.rs:182-276) with `Block::create`'s drain -/
 def bundle (fl : Flags) (p : Pool) (g : Gates) : Pool × BRes :=
-  if !g.tsOk then (p, .panic)
+  if !g.tsOk then (p, if fl.clockChecked then .none else .panic)
   else if p.txs.isEmpty || !p.newTx then (p, .none)
   else if !g.ticket || !g.jitter || p.work < g.need then (p, .none)
   else if dsFree p.txs then
